@@ -320,4 +320,11 @@ Definition query (b : bn) (Q : list var) (evidence : list (var * nat)) (vev : li
         inl (if joint then [(0, ve_joint b2 ev2 order)] else ve_per_variable b2 Q ev2 order)
     end
   end.
+
+(* A session on ONE engine: query keeps no state between calls (after e568f1b the engine's model is restored
+   after virtual evidence; nothing is cached), so the k-th answer is the single-query answer of the k-th request *)
+Definition request : Type := (list var * list (var * nat) * list (var * var * list Qc) * eo * bool)%type.
+Definition run_request (b : bn) (r : request) : list (var * fac) + nat :=
+  let '(Q, ev, vev, e, joint) := r in query b Q ev vev e joint.
+Definition session (b : bn) (rs : list request) : list (list (var * fac) + nat) := map (run_request b) rs.
 End WithCard.
